@@ -8,25 +8,32 @@ fs/stream.py (nothing is imported or run), are clauses whose failure necessarily
   R1 part arithmetic   SourceCopier._copy_file_multi_part_main / f / _copy_part are executed abstractly over polynomial normal
                        forms for every case of  size = q*part_size + rem  (q in {0,1,>=2} x rem in {0,>0}) and every kind of
                        part (last / next-to-last / earlier): either the whole file goes through _copy_file, or the parts
-                       [start_i, start_i + size_i) tile [0, size) exactly (start_0 = 0, start_i + size_i = start_{i+1},
-                       start_last + size_last = size), the part numbers stay inside the number of parts announced to
-                       multi_part_create, and inside a part the source read offset equals the destination offset of the byte
-                       being written (reader/writer agreement).  A refutation is reported with a concrete size / part size.
+                       [start_i, start_i + size_i) cover [0, size) without a gap and without reaching beyond the end of the
+                       source (start_0 = 0, start_i + size_i >= start_{i+1}, start_last + size_last = size; an overlap inside
+                       the file is tolerated, it rewrites identical bytes), and inside a part the source read offset equals the
+                       destination offset of the byte being written (reader/writer agreement).  A refutation is reported with a
+                       concrete size / part size.
   R2 exact-length loops the counted loop of _copy_part (and of _ReadableStreamFromBlocking._readexactly it relies on) continues
                        iff bytes remain, asks for between 1 and `remaining` bytes (never across the part boundary), passes on the
                        very bytes read and decreases the counter by the number of bytes passed on; the read-until-EOF loop of
                        _copy_file passes on every non-empty chunk and leaves exactly on the empty one.
   R3 destination       the single-file path reads `srcfile` from its start and creates `destfile`; the multi-part path creates the
-                       part creator for `destfile` with the same n_parts it enumerates, hands that creator and `srcfile` to every
-                       part, and every exit of the function has copied; LocalAsyncFS opens sources 'rb' (seeking to `start` for
+                       part creator for `destfile`, announces a part count that covers every part number it uses, hands that creator
+                       and `srcfile` to every part, and every exit of the function has copied; LocalAsyncFS opens sources 'rb' (seeking to `start` for
                        ranged reads), creates destinations with a truncating binary mode, creates an empty file for a multi-part
                        copy and writes each part through a non-truncating 'r+b' handle positioned at the part's own offset;
                        LocalMultiPartCreate.__aexit__ removes the file only on failure and never suppresses the error.
-  R4 destination rules the decision table  (treat_dest_as x destination state x trailing slash x source kind x one/many sources)
-                       -> error class or set of (source file, destination path) pairs is ENUMERATED with our own interpreter
-                       (engines/minipy) over Transfer.__init__, Copier._copy_one_transfer/_dest_type/copy_source and
-                       SourceCopier.copy/copy_as_file/copy_as_dir/_full_dest against a file-system model, and compared row by
-                       row with the table the statement documents; make_transfer maps 'to'/'into' to the documented modes;
+  R4 destination rules predicate abstraction + path enumeration (engines/pathabs): for every valuation of the atoms the destination rules
+                       test (treat_dest_as x result of staturl(dest) x dest ends with '/' x src ends with '/' x statfile(src) succeeds x
+                       recursive listfiles(src/) succeeds x one / several sources; 288 rows) the statement trees of Transfer.__init__,
+                       Copier._copy_one_transfer/_dest_type/copy_source and SourceCopier.__init__/copy/copy_as_file/copy_as_dir/_full_dest are
+                       walked, callees composed at their call sites, and the abstract OUTCOME is computed: the error class raised, or the
+                       (source, destination, status) arguments handed to _copy_file_multi_part as terms over uninterpreted constructors
+                       (url_join(dest, url_basename(rstrip(src, '/'))), slice_from(entry_url, len(root)) ...).  It is compared row by row
+                       with the table the statement documents; an atom the code tests that is not a column of the table declines.  The
+                       barrier between copy_as_file and copy_as_dir is not scheduled: the CFG obligation "released exactly once on every
+                       path before the wait and on every exit, two parties, counter 2" is checked structurally and licenses composing the
+                       two classification parts before the two copy parts.  make_transfer maps 'to'/'into' to the documented modes;
                        LocalAsyncFS.statfile/staturl classify directories the way the table assumes.
   R5 errors surface    with return_exceptions false (what the tool passes) every broad handler on the copy path re-raises, the flag
                        is handed down unchanged, copy.py does not switch it on, and no coroutine of the copy path is created
@@ -34,32 +41,33 @@ fs/stream.py (nothing is imported or run), are clauses whose failure necessarily
 
 NOT decided: byte identity itself (contents of what read/write return, OS semantics of open/seek/write, short writes), the
 cloud back ends, behaviour under concurrent modification of sources, interleavings of the part tasks (the parts write
-disjoint ranges by R1, which is the only schedule-independence argument made), the weighted semaphore (C40), progress
+disjoint ranges by R1, which is the only schedule-independence argument made), the string behaviour of url_join / url_basename /
+rstrip / slicing (uninterpreted constructors in R4: only WHICH term is built is compared), the weighted semaphore (C40), progress
 accounting (SourceReport counters), cleanup of partial files after a failure, the return_exceptions=True reporting mode.
 """
 from __future__ import annotations
 
 import ast
-import posixpath
 from typing import Any, Callable, Dict, List, Optional, Sequence, Set, Tuple
 
-from engines import absdom, minipy, pyfacts as pf
+from engines import absdom, pathabs as pa, pyfacts as pf
 from engines.common import AnalysisError, Ctx
 from engines.polysign import ONE, ZERO, Poly
-from engines.symexec import Exec, Op, Undecided, bind_args, refute
+from engines.absexec import Exec, Op, Undecided, bind_args, refute
 
 META = dict(
     category='other',
-    text='Partial claim. Necessary structural conditions of exact copying are decided exhaustively over finite abstractions: part tiling and '
-         'reader/writer offset agreement by abstract execution over polynomial normal forms with a finite case split (identities proved '
-         'symbolically, refutations by concrete witness), exact-length loop clauses by one abstract iteration per order case, the '
-         'destination-rule decision table by enumerating all rows with our own interpreter over the extracted code against a file-system '
-         'model, error propagation by truth tables of the handlers.  Byte identity itself is a runtime round-trip property and is not claimed.',
-    note='Trusted: CPython ast; engines/polysign, symexec, minipy; the file-system model (statfile/listfiles/staturl outcomes), url_join/url_basename '
-         '= posixpath join/basename on scheme-less paths; read() of a regular local file returns >= 1 byte before EOF; write() writes all bytes. '
+    text='Partial claim. Necessary structural conditions of exact copying are decided exhaustively over finite abstractions: part coverage and '
+         'reader/writer offset agreement by abstract execution over polynomial normal forms with a finite case split (identities proved on the '
+         'normal form, refutations by a concrete witness of the normal form), exact-length loop clauses by one abstract iteration per order case, '
+         'the destination-rule decision table by predicate abstraction + path enumeration of the extracted methods with uninterpreted string '
+         'constructors (every row of the atom valuation compared with the documented table), the barrier by must-pass-through on the CFG, error '
+         'propagation by truth tables of the handlers.  Byte identity itself is a runtime round-trip property and is not claimed.',
+    note='Trusted: CPython ast; engines/polysign, absexec, pathabs; outcomes of statfile/listfiles/staturl are columns of the table; url_join, url_basename, '
+         'rstrip, slicing are uninterpreted; read() of a regular local file returns >= 1 byte before EOF; write() writes all bytes. '
          'Not decided: contents of reads/writes, OS open/seek semantics, cloud back ends, schedules, accounting, cleanup after failure.',
-    technique='static analysis: abstract execution over polynomial normal forms + finite case split; finite decision-table enumeration by an '
-              'AST interpreter against a model; CFG / truth tables for handlers; structural checks of open modes',
+    technique='static analysis: abstract execution over polynomial normal forms with a finite case split; predicate abstraction + path enumeration '
+              'with inter-method composition for the decision table; CFG must-pass-through; truth tables for handlers; structural checks of open modes',
     design_ref='DESIGN.md §3 C22 (partial)',
 )
 
@@ -432,6 +440,14 @@ def _plumb_part(ctx: Ctx, m: pf.Module, act: Dict[str, Any], part: _Part, mpcs: 
         _once(ctx, 'R3', cons, okp, f'{kd}: _copy_part creates its part through {_vt(got)}, not through the part creator made for the destination file', m.path, g.node.lineno)
     else:
         raise AnalysisError(f'{q}: _copy_part calls create_part on `{part.pc!r}`, not on a parameter')
+    rex = act.get('return_exceptions')
+    if 'return_exceptions' not in [a.arg for a in _method(m, '_copy_part').args.args]:
+        raise AnalysisError(f'{SC}._copy_part has no return_exceptions parameter')
+    okr = isinstance(rex, Poly) and exi.decide('==', rex, ZERO) is True
+    if not okr and not (isinstance(rex, Poly) and rex.is_const()):
+        raise AnalysisError(f'{q}: cannot follow the return_exceptions argument of _copy_part (`{rex!r}`)')
+    _once(ctx, 'R5', f'{F}::{q}::_copy_part(.., return_exceptions) [{case}]', okr, f'{kd}: the part copy is started with return_exceptions=True although the caller asked for exceptions: '
+          'a failed part is recorded in the report, the destination is left with a hole and counted as copied', m.path, g.node.lineno)
     return ok
 
 
@@ -738,174 +754,169 @@ def _local_fs(ctx: Ctx) -> None:
 
 
 # ==================================================================================================
-# R4: destination-rule decision table
+# R4: destination-rule decision table (predicate abstraction + path enumeration, engines/pathabs)
 # ==================================================================================================
 
-MODES = ('dest_dir', 'dest_is_target', 'infer_dest')
-SRC, SRC2, DEST = 'S/a', 'S/b', 'D/x'
-REL = 'sub/f'
 ERRORS = ('FileAndDirectoryError', 'FileNotFoundError', 'IsADirectoryError', 'NotADirectoryError')
+URL_ALIASES = {'m:url_maybe_trailing_slash': 'entry_url', 'm:url': 'entry_url'}  # equal for the non-directory entries a recursive listing yields
 
 
-def _expected(mode: str, dstate: str, dslash: bool, multi: bool, kinds: List[Tuple[str, bool, bool, bool]]) -> Tuple[str, Any]:
-    """The documented table.  kinds: per source (path given to the tool, trailing slash, a file exists there, a directory exists there)."""
-    dest = DEST + ('/' if dslash else '')
-    if multi and mode == 'dest_is_target':
-        return ('error', 'NotADirectoryError')  # several sources cannot all become one exact target
-    into_dir = mode == 'dest_dir' or (mode == 'infer_dest' and (dslash or multi or dstate == 'dir'))
-    copies: List[Tuple[str, str]] = []
-    for src, sslash, sfile, sdir in kinds:
-        is_file = sfile and not sslash  # "a/" never names a file
-        is_dir = sdir
+def _classes() -> Dict[str, Tuple[pf.Module, ast.ClassDef]]:
+    m, fm = pf.load(F), pf.load(FSF)
+    out = {n: (m, m.cls(n)) for n in ('Transfer', 'Copier', SC, 'SourceReport', 'TransferReport')}
+    out['AsyncFS'] = (fm, fm.cls('AsyncFS'))
+    return out
+
+
+def _exceptions() -> Dict[str, str]:
+    em = pf.load('hail/python/hailtop/aiotools/fs/exceptions.py')
+    out = {}
+    for c in em.tree.body:
+        if isinstance(c, ast.ClassDef) and len(c.bases) == 1 and pf.dotted(c.bases[0]):
+            out[c.name] = pf.dotted(c.bases[0])
+    return out
+
+
+def _enum(ctx: Ctx, m: pf.Module, cls: str, name: str) -> str:
+    for st in m.cls(cls).body:
+        if isinstance(st, ast.Assign) and len(st.targets) == 1 and pf.nsrc(st.targets[0]) == name:
+            s = pf.const_str(st.value)
+            ctx.need(s is not None, f'{cls}.{name} is not a string constant')
+            return s  # type: ignore[return-value]
+    raise AnalysisError(f'anchor vanished: {cls}.{name}')
+
+
+class _Row:
+    """One row of the table: the atoms, the outcome of the environment queries, the expected and the computed abstract outcome."""
+
+    def __init__(self, ctx: Ctx, consts: Dict[str, str], mode: str, dstate: str, dslash: bool, multi: bool, sslash: bool, sfile: bool, sdir: bool):
+        self.ctx, self.consts = ctx, consts
+        self.mode, self.dstate, self.dslash, self.multi, self.sslash, self.sfile, self.sdir = mode, dstate, dslash, multi, sslash, sfile, sdir
+        self.src_in = pa.Sym('src')
+        self.dest = pa.Sym('dest')
+        self.S: Any = pa.Term('elem', [self.src_in]) if multi else self.src_in  # the (generic) source of the transfer
+        self.val: Dict[str, bool] = {
+            'isinstance(src, list)': multi,
+            'isinstance(src, str)': not multi,
+            "endswith(dest, '/')": dslash,
+            f"endswith({pa.key(self.S)}, '/')": sslash,
+        }
+        self.engine = pa.PathAbs(_classes(), self.val, url_aliases=URL_ALIASES, exceptions=_exceptions())
+        mk = self.engine.mk
+        self.root = self.S if sslash else mk('concat', [self.S, pa.Const('/')])
+        self.listing = pa.Term('listing', [self.root])
+        self.entry = pa.Term('elem', [self.listing])
+        self.entry_url = pa.Term('entry_url', [self.entry])
+        self.val[f"endswith({pa.key(self.entry_url)}, '/')"] = False  # files with empty names do not exist on a local file system
+
+    def name(self) -> str:
+        kind = {(True, True): 'file+dir', (True, False): 'file', (False, True): 'dir', (False, False): 'missing'}[(self.sfile, self.sdir)]
+        src = f'{kind}{" with trailing slash" if self.sslash else ""}'
+        return (f'treat_dest_as={self.mode}, destination {self.dstate}{" with trailing slash" if self.dslash else ""}, '
+                + (f'every one of several sources: {src}' if self.multi else f'source {src}'))
+
+    # ---- the documented table -----------------------------------------------------------------
+    def expected(self) -> Tuple[str, Any]:
+        c, mk = self.consts, self.engine.mk
+        if self.multi and self.mode == c['DEST_IS_TARGET']:
+            return ('error', 'NotADirectoryError')  # several sources cannot all become one exact target
+        into_dir = self.mode == c['DEST_DIR'] or (self.mode == c['INFER_DEST'] and (self.dslash or self.multi or self.dstate == 'dir'))
+        is_file = self.sfile and not self.sslash  # "a/" never names a file
+        is_dir = self.sdir
         if is_file and is_dir:
             return ('error', 'FileAndDirectoryError')
         if not is_file and not is_dir:
             return ('error', 'FileNotFoundError')
-        base = posixpath.basename(src.rstrip('/'))
+        inside = mk('url_join', [self.dest, mk('url_basename', [mk('rstrip', [self.S, pa.Const('/')])])])
         if is_file:
             if into_dir:
-                copies.append((src, posixpath.join(dest, base)))
-            elif mode == 'dest_is_target' and dslash:
-                return ('error', 'IsADirectoryError')  # file onto a path that is spelled as a directory
+                target = inside
+            elif self.mode == c['DEST_IS_TARGET'] and self.dslash:
+                return ('error', 'IsADirectoryError')  # a file onto a path spelled as a directory
             else:
-                copies.append((src, dest))
+                target = self.dest
+            return ('copies', [(('each ' if self.multi else '') + pa.key(self.S), pa.key(target), pa.key(pa.Term('statfile', [self.S])))])
+        if into_dir:
+            root = inside
+        elif self.mode == c['INFER_DEST'] and self.dstate == 'file':
+            return ('error', 'NotADirectoryError')  # a directory onto an existing file
         else:
-            if into_dir:
-                root = posixpath.join(dest, base)
-            elif mode == 'infer_dest' and dstate == 'file':
-                return ('error', 'NotADirectoryError')  # directory onto an existing file
-            else:
-                root = dest
-            sdirp = src if src.endswith('/') else src + '/'
-            copies.append((sdirp + REL, posixpath.join(root, REL)))
-    return ('copies', sorted(copies))
+            root = self.dest
+        rel = mk('slice_from', [self.entry_url, mk('len', [self.root])])
+        return ('copies', [('each ' + pa.key(self.entry_url), pa.key(mk('url_join', [root, rel])), pa.key(pa.Term('m:status', [self.entry])))])
 
+    # ---- the table computed from the code -----------------------------------------------------
+    def computed(self) -> Tuple[str, Any]:
+        c, eng = self.consts, self.engine
+        copies: List[Tuple[str, str, str]] = []
+        flags: List[Any] = []
 
-class _Table:
-    def __init__(self, ctx: Ctx):
-        self.ctx = ctx
-        self.m = pf.load(F)
-        self.rows = 0
+        def raise_(name: str, arg: Any) -> None:
+            raise pa.AbsRaise(pa.Exc(name, [arg]))
 
-    def run_row(self, mode: str, dstate: str, dslash: bool, multi: bool, kinds: List[Tuple[str, bool, bool, bool]]) -> Tuple[str, Any]:
-        dest = DEST + ('/' if dslash else '')
-        world = {k[0].rstrip('/'): (k[2], k[3]) for k in kinds}
-        copies: List[Tuple[str, str]] = []
-        rex_seen: List[Any] = []
+        def statfile(args: List[Any], kwargs: Dict[str, Any]) -> Any:
+            if len(args) != 1 or pa.key(args[0]) != pa.key(self.S):
+                raise AnalysisError(f'statfile is asked about `{pa.key(args[0]) if args else "?"}`, which is not a column of the table')
+            if not self.sfile:
+                raise_('FileNotFoundError', args[0])
+            return pa.Term('statfile', [args[0]])
 
-        def fnf(msg: str) -> minipy.Raised:
-            return minipy.Raised(minipy.ExcV(minipy.ExcClass('FileNotFoundError'), (msg,)))
+        def listfiles(args: List[Any], kwargs: Dict[str, Any]) -> Any:
+            rec = kwargs.get('recursive', args[1] if len(args) > 1 else pa.Const(False))
+            if not args or pa.key(args[0]) != pa.key(self.root) or not (isinstance(rec, pa.Const) and rec.value is True):
+                raise AnalysisError(f'listfiles is asked about `{pa.key(args[0]) if args else "?"}` (recursive={pa.key(rec)}), which is not a column of the table')
+            if not self.sdir:
+                raise_('NotADirectoryError' if self.sfile else 'FileNotFoundError', args[0])
+            return pa.Term('listing', [args[0]])
 
-        def coro(name: str, f: Callable[[], Any]) -> minipy.CoroV:
-            def g():
-                return f()
-                yield  # pragma: no cover
-            return minipy.CoroV(name, g)
+        def staturl(args: List[Any], kwargs: Dict[str, Any]) -> Any:
+            if len(args) != 1 or pa.key(args[0]) != 'dest':
+                raise AnalysisError(f'staturl is asked about `{pa.key(args[0]) if args else "?"}`, which is not a column of the table')
+            if self.dstate == 'missing':
+                raise_('FileNotFoundError', args[0])
+            return pa.Const(c['FILE'] if self.dstate == 'file' else c['DIR'])
 
-        def statfile(it, o, a, k):
-            def f():
-                url = a[0]
-                if url.endswith('/') or url not in world:
-                    raise minipy.Unsupported(f'statfile({url!r}) is outside the modelled world')
-                if not world[url][0]:
-                    raise fnf(url)
-                return minipy.ExtObj('FileStatus', {'size': lambda it2, o2, a2, k2: coro('size', lambda: 7)})
-            return coro('statfile', f)
+        def stub(bound: Dict[str, Any]) -> Any:
+            generic = eng.generic_depth > 0
+            copies.append((('each ' if generic else '') + pa.key(bound.get('srcfile')), pa.key(bound.get('destfile')), pa.key(bound.get('srcstat'))))
+            flags.append(bound.get('return_exceptions'))
+            return pa.Const(None)
 
-        def listfiles(it, o, a, k):
-            def f():
-                url = a[0]
-                rec = k.get('recursive', a[1] if len(a) > 1 else False)
-                if not url.endswith('/') or url.rstrip('/') not in world or not rec:
-                    raise minipy.Unsupported(f'listfiles({url!r}, recursive={rec}) is outside the modelled world')
-                if not world[url.rstrip('/')][1]:
-                    raise fnf(url) if not world[url.rstrip('/')][0] else minipy.Raised(minipy.ExcV(minipy.ExcClass('NotADirectoryError'), (url,)))
-                st = minipy.ExtObj('FileStatus', {'size': lambda it2, o2, a2, k2: coro('size', lambda: 7)})
-                entry = minipy.ExtObj('FileListEntry', {
-                    'url_maybe_trailing_slash': lambda it2, o2, a2, k2: coro('url', lambda: url + REL),
-                    'url': lambda it2, o2, a2, k2: coro('url', lambda: url + REL),
-                    'status': lambda it2, o2, a2, k2: coro('status', lambda: st),
-                })
-                return minipy.AsyncIterV([entry])
-            return coro('listfiles', f)
-
-        def staturl(it, o, a, k):
-            def f():
-                if a[0] != dest or dest.endswith('/'):
-                    raise minipy.Unsupported(f'staturl({a[0]!r}) is outside the modelled world')
-                if dstate == 'missing':
-                    raise fnf(a[0])
-                return dstate
-            return coro('staturl', f)
-
-        fsobj = minipy.ExtObj('AsyncFS', {'statfile': statfile, 'listfiles': listfiles, 'staturl': staturl})
-        sig = _method(self.m, '_copy_file_multi_part')
-        sparams = [a.arg for a in sig.args.args][1:]
-        self.ctx.need('srcfile' in sparams and 'destfile' in sparams and 'return_exceptions' in sparams, f'{SC}._copy_file_multi_part parameters changed: {sparams}')
-
-        def stub(it, inst, a, k):
-            bound = dict(zip(sparams, a))
-            bound.update(k)
-            copies.append((bound.get('srcfile'), bound.get('destfile')))
-            rex_seen.append(bound.get('return_exceptions'))
-            return coro('_copy_file_multi_part', lambda: None)
-
-        ext = dict(minipy.BASE_EXTERNALS)
-        ext.update({
-            'retry_transient_errors': minipy.model_call_then_await('retry_transient_errors'),
-            'bounded_gather2': minipy.model_bounded_gather2,
-            'url_join': lambda it, a, k: posixpath.join(a[0], a[1]),
-            'url_basename': lambda it, a, k: posixpath.basename(a[0]),
-        })
-        it = minipy.Interp(ext, {(SC, '_copy_file_multi_part'): stub})
+        eng.oracles = {'statfile': statfile, 'listfiles': listfiles, 'staturl': staturl}
+        eng.oracle_receivers = ('router_fs',)
+        eng.stubs = {'_copy_file_multi_part': stub}
         try:
-            T = it.global_lookup(self.m, 'Transfer')
-            Cop = it.global_lookup(self.m, 'Copier')
-            srcs = [k[0] for k in kinds]
-            try:
-                transfer = it.run_call(T, [srcs if multi else srcs[0], dest], {'treat_dest_as': mode})
-                copier = minipy.Obj(Cop)
-                copier.attrs['router_fs'] = fsobj
-                copier.attrs['xfer_sema'] = minipy.ExtObj('WeightedSemaphore')
-
-                def report() -> minipy.ExtObj:
-                    r = minipy.ExtObj('SourceReport')
-                    r.permissive = True
-                    return r
-                tr = minipy.ExtObj('TransferReport')
-                tr.permissive = True
-                tr.attrs['_source_report'] = [report() for _ in srcs] if multi else report()
-                fn = it.getattr(copier, '_copy_one_transfer')
-                it.run_call(fn, [minipy.ExtObj('Semaphore'), tr, transfer, False], {})
-            except minipy.Raised as r:
-                return ('error', r.value.cls.name)
-        except minipy.Unsupported as e:
-            raise AnalysisError(f'destination table row (mode={mode}, dest {dstate}{"/" if dslash else ""}, sources {kinds}): {e}')
-        if any(x is not False for x in rex_seen):
-            return ('swallows', rex_seen)
+            transfer = eng.call(eng.class_ref('Transfer'), [self.src_in, self.dest], {'treat_dest_as': pa.Const(self.mode)}, 'Transfer(...)')
+            copier = pa.AObj('Copier')
+            copier.fields['router_fs'] = pa.Sym('router_fs')
+            copier.fields['xfer_sema'] = pa.Sym('xfer_sema')
+            fn = eng.getattr(copier, '_copy_one_transfer')
+            eng.await_(eng.call(fn, [pa.Sym('sema'), pa.Sym('transfer_report'), transfer, pa.Const(False)], {}, '_copy_one_transfer(...)'))
+        except pa.AbsRaise as r:
+            return ('error', r.exc.name)
+        if any(not (isinstance(x, pa.Const) and x.value is False) for x in flags):
+            return ('swallows', [pa.key(x) for x in flags])
         return ('copies', sorted(copies))
-
-
-def _row_name(mode: str, dstate: str, dslash: bool, multi: bool, kinds: List[Tuple[str, bool, bool, bool]]) -> str:
-    def kd(k: Tuple[str, bool, bool, bool]) -> str:
-        what = {(True, True): 'file+dir', (True, False): 'file', (False, True): 'dir', (False, False): 'missing'}[(k[2], k[3])]
-        return f'{what}{" with trailing slash" if k[1] else ""}'
-    return f'treat_dest_as={mode}, destination {dstate}{" with trailing slash" if dslash else ""}, ' + ('sources [' + ', '.join(kd(k) for k in kinds) + ']' if multi else f'source {kd(kinds[0])}')
 
 
 def _fmt(o: Tuple[str, Any]) -> str:
     if o[0] == 'error':
-        if o[1] == 'Deadlock':
-            return 'never finishes (copy_as_file and copy_as_dir wait for each other at the barrier)'
         return f'raises {o[1]}'
     if o[0] == 'swallows':
         return f'passes return_exceptions={o[1]} down (errors would be swallowed)'
-    return 'copies ' + (', '.join(f'{a} -> {b}' for a, b in o[1]) if o[1] else 'nothing')
+    return 'copies ' + ('; '.join(f'{a} -> {b} (size from {s})' for a, b, s in o[1]) if o[1] else 'nothing')
 
 
 def _dest_table(ctx: Ctx) -> None:
-    tab = _Table(ctx)
-    for mode in MODES:
+    m, fm = pf.load(F), pf.load(FSF)
+    consts = {k: _enum(ctx, m, 'Transfer', k) for k in ('DEST_DIR', 'DEST_IS_TARGET', 'INFER_DEST')}
+    consts.update({k: _enum(ctx, fm, 'AsyncFS', k) for k in ('FILE', 'DIR')})
+    ctx.need(len(set(consts.values())) == 5, f'Transfer / AsyncFS constants are not distinct: {consts}')
+    sig = [a.arg for a in _method(m, '_copy_file_multi_part').args.args][1:]
+    ctx.need(all(x in sig for x in ('srcfile', 'srcstat', 'destfile', 'return_exceptions')), f'{SC}._copy_file_multi_part parameters changed: {sig}')
+    line = m.func(f'{SC}._full_dest').lineno
+    for mk_ in ('DEST_DIR', 'DEST_IS_TARGET', 'INFER_DEST'):
+        mode = consts[mk_]
         for multi in (False, True):
             diffs = []
             n = 0
@@ -914,43 +925,74 @@ def _dest_table(ctx: Ctx) -> None:
                     for sslash in (False, True):
                         for sfile in (False, True):
                             for sdir in (False, True):
-                                seconds = [None] if not multi else ([(True, False)] if ctx.tier != 'thorough' else [(True, False), (False, True), (False, False), (True, True)])
-                                for sec in seconds:
-                                    kinds = [(SRC + ('/' if sslash else ''), sslash, sfile, sdir)]
-                                    if sec is not None:
-                                        kinds.append((SRC2, False, sec[0], sec[1]))
-                                    want = _expected(mode, dstate, dslash, multi, kinds)
-                                    got = tab.run_row(mode, dstate, dslash, multi, kinds)
-                                    n += 1
-                                    if got != want:
-                                        diffs.append((_row_name(mode, dstate, dslash, multi, kinds), want, got))
+                                row = _Row(ctx, consts, mode, dstate, dslash, multi, sslash, sfile, sdir)
+                                want = row.expected()
+                                try:
+                                    got = row.computed()
+                                except AnalysisError as e:
+                                    raise AnalysisError(f'destination table row ({row.name()}): {e}')
+                                n += 1
+                                if got != want:
+                                    diffs.append((row.name(), want, got))
             ctx.unit('decision_table_rows', n)
             cons = f'{F}::destination rules::treat_dest_as={mode}, {"several sources" if multi else "one source"}'
             if not diffs:
                 ctx.ok('R4', cons, {'rows': n})
             for name, want, got in diffs[:2]:
                 ctx.bad('R4', f'{F}::destination rules::{name}', f'the code {_fmt(got)}; the documented rule is: {_fmt(want)} ({len(diffs)} of {n} rows of this group differ)',
-                        tab.m.path, tab.m.func(f'{SC}._full_dest').lineno, extra=[d[0] for d in diffs[:20]])
+                        m.path, line, extra=[d[0] for d in diffs[:20]])
+
+
+def _barrier(ctx: Ctx) -> None:
+    """Structural obligation behind the barrier split of pathabs.model_asyncio_gather: copy_as_file / copy_as_dir release the barrier exactly once
+    on every path before waiting and on every exit; two parties are gathered, the counter starts at 2, release counts down by one and opens at 0."""
+    m = pf.load(F)
+    for name in ('copy_as_file', 'copy_as_dir'):
+        fn = _method(m, name)
+        why = pa.barrier_discipline(fn, 'self.release_barrier')
+        ctx.check(why is None, 'R4', f'{F}::{SC}.{name}::releases the barrier exactly once on every path', f'{why}: SourceCopier.copy never returns (or the classification of the '
+                  'source as file/directory is read before the sibling has written it)', m.path, fn.lineno)
+    init = _method(m, '__init__')
+    pend = [st.value for st in ast.walk(init) if isinstance(st, (ast.Assign, ast.AnnAssign)) and pf.nsrc(st.targets[0] if isinstance(st, ast.Assign) else st.target) == 'self.pending']
+    ctx.need(len(pend) == 1 and isinstance(pend[0], ast.Constant) and isinstance(pend[0].value, int), f'{SC}.__init__: self.pending is not set once to an integer literal')
+    cp = _method(m, 'copy')
+    gs = [c for c in ast.walk(cp) if isinstance(c, ast.Call) and pf.dotted(c.func) == 'asyncio.gather']
+    ctx.need(len(gs) == 1, f'{SC}.copy: {len(gs)} asyncio.gather calls')
+    parties = [a for a in gs[0].args if isinstance(a, ast.Call) and pf.dotted(a.func) in ('self.copy_as_file', 'self.copy_as_dir')]
+    ctx.need(len(parties) == len(gs[0].args), f'{SC}.copy gathers something else than copy_as_file / copy_as_dir')
+    rb = _method(m, 'release_barrier')
+    body = [s for s in rb.body if not (isinstance(s, ast.Expr) and isinstance(s.value, ast.Constant))]
+    shape = len(body) == 2 and isinstance(body[0], ast.AugAssign) and isinstance(body[0].op, ast.Sub) and pf.nsrc(body[0].target) == 'self.pending' \
+        and pf.nsrc(body[0].value) == '1' and isinstance(body[1], ast.If) and pf.nsrc(body[1].test) in ('self.pending == 0', 'self.pending <= 0', 'not self.pending') \
+        and len(body[1].body) == 1 and pf.call_name(getattr(body[1].body[0], 'value', None)) == 'self.barrier.set' and not body[1].orelse
+    ctx.need(shape, f'{SC}.release_barrier is not `self.pending -= 1; if self.pending == 0: self.barrier.set()`')
+    ctx.check(pend[0].value == len(parties), 'R4', f'{F}::{SC}::barrier parties', f'the barrier counts {pend[0].value} parties but {len(parties)} coroutines release it: '
+              + ('nobody ever passes the barrier' if pend[0].value > len(parties) else 'the first coroutine passes before the other has classified the source'), m.path, init.lineno)
 
 
 def _make_transfer(ctx: Ctx) -> None:
-    m = pf.load(CP)
+    mc, m = pf.load(CP), pf.load(F)
     ctx.unit('files')
-    it = minipy.Interp(dict(minipy.BASE_EXTERNALS))
-    fn = it.global_lookup(m, 'make_transfer')
-    for key, want in (('to', 'dest_is_target'), ('into', 'dest_dir')):
-        cons = f'{CP}::make_transfer::{key!r}'
+    consts = {k: _enum(ctx, m, 'Transfer', k) for k in ('DEST_DIR', 'DEST_IS_TARGET', 'INFER_DEST')}
+    fn = mc.func('make_transfer')
+    ctx.need(len(fn.args.args) == 1, 'make_transfer parameters changed')
+    j = pa.Sym('json_object')
+    for jkey, want in (('to', consts['DEST_IS_TARGET']), ('into', consts['DEST_DIR'])):
+        cons = f'{CP}::make_transfer::{jkey!r}'
+        val = {f"in({k!r}, json_object)": k == jkey for k in ('to', 'into')}
+        val[f"isinstance(getitem(json_object, 'from'), list)"] = False
+        val[f"endswith(getitem(json_object, {jkey!r}), '/')"] = False
+        eng = pa.PathAbs(_classes(), val, exceptions=_exceptions())
         try:
-            t = it.run_call(fn, [{'from': 'S/a', key: 'D/x'}], {})
-        except minipy.Raised as r:
-            ctx.bad('R4', cons, f'make_transfer({{"from": .., {key!r}: ..}}) raises {r.value!r}', m.path, m.func('make_transfer').lineno)
+            t = eng.call(pa.Clo(fn, None, None, None, mc), [j], {}, 'make_transfer(...)')
+        except pa.AbsRaise as r:
+            ctx.bad('R4', cons, f'make_transfer({{"from": .., {jkey!r}: ..}}) raises {r.exc.name}', mc.path, fn.lineno)
             continue
-        except minipy.Unsupported as e:
-            raise AnalysisError(f'make_transfer: {e}')
-        ctx.need(isinstance(t, minipy.Obj) and t.cls.name == 'Transfer', 'make_transfer does not return a Transfer')
-        got = (t.attrs.get('src'), t.attrs.get('dest'), t.attrs.get('treat_dest_as'))
-        ctx.check(got == ('S/a', 'D/x', want), 'R4', cons, f'a {{"from": "S/a", {key!r}: "D/x"}} request becomes Transfer(src={got[0]!r}, dest={got[1]!r}, treat_dest_as={got[2]!r}); '
-                  f'documented: {key!r} means {"copy to the exact target" if key == "to" else "copy into the directory"} ({want})', m.path, m.func('make_transfer').lineno)
+        ctx.need(isinstance(t, pa.AObj) and t.cls == 'Transfer', 'make_transfer does not return a Transfer')
+        got = tuple(pa.key(t.fields.get(k)) for k in ('src', 'dest', 'treat_dest_as'))
+        exp = ("getitem(json_object, 'from')", f'getitem(json_object, {jkey!r})', repr(want))
+        ctx.check(got == exp, 'R4', cons, f'a {{"from": s, {jkey!r}: d}} request becomes Transfer(src={got[0]}, dest={got[1]}, treat_dest_as={got[2]}); '
+                  f'documented: {jkey!r} means {"copy to the exact target" if jkey == "to" else "copy into the directory"} ({want!r})', mc.path, fn.lineno)
 
 
 def _local_classifiers(ctx: Ctx) -> None:
@@ -1119,16 +1161,16 @@ def _awaited(ctx: Ctx, mods: Sequence[pf.Module]) -> None:
 
 
 def run(ctx: Ctx) -> None:
-    ctx.explanation = ('Abstract execution of the multi-part copy over polynomial normal forms for 6 size cases x 3 kinds of part (identities proved symbolically, '
-                       'refutations by witness), one abstract iteration per order case of each copy loop, enumeration of the 288-row destination-rule table with an AST '
-                       'interpreter against a file-system model, truth tables of the broad exception handlers, structural checks of the local open modes.')
-    ctx.rule('R1', 'parts tile [0,size) for every case of size = q*part_size + rem; source offset = destination offset inside a part; part size positive', 8)
+    ctx.explanation = ('Abstract execution of the multi-part copy over polynomial normal forms for 6 size cases x 3 kinds of part (identities proved on the normal form, '
+                       'refutations by witness), one abstract iteration per order case of each copy loop, predicate abstraction + path enumeration of the 288-row destination-rule table, '
+                       'CFG barrier discipline, truth tables of the broad exception handlers, structural checks of the local open modes.')
+    ctx.rule('R1', 'parts cover [0,size) without gap and without reading beyond the end, for every case of size = q*part_size + rem; source offset = destination offset inside a part; part size positive', 8)
     ctx.rule('R2', 'copy loops: continue iff bytes remain, 1 <= request <= remaining, pass on what was read, decrease by what was passed on; EOF loop stops exactly at EOF', 15)
-    ctx.rule('R3', 'whole-file / multi-part paths read srcfile and create destfile with the enumerated part count; local open modes, seeks, truncation, __aexit__', 27)
-    ctx.rule('R4', 'destination-rule decision table equals the documented one on every row; make_transfer; local statfile/staturl classification', 10)
-    ctx.rule('R5', 'broad handlers re-raise when return_exceptions is false; the flag is handed down unchanged and left false by the tool; coroutines are awaited', 47)
-    ctx.assume('url_join / url_basename act as posixpath.join / basename on scheme-less local paths')
-    ctx.assume('file-system model: statfile raises FileNotFoundError unless a file exists, recursive listfiles raises unless a directory exists, staturl answers file/dir or raises FileNotFoundError')
+    ctx.rule('R3', 'whole-file / multi-part paths read srcfile and create destfile, part numbers within the announced count; local open modes, seeks, truncation, __aexit__', 27)
+    ctx.rule('R4', 'destination-rule outcome table (predicate abstraction) equals the documented one on every row; barrier discipline; make_transfer; local statfile/staturl classification', 13)
+    ctx.rule('R5', 'broad handlers re-raise when return_exceptions is false; the flag is handed down unchanged and left false by the tool; coroutines are awaited', 50)
+    ctx.assume('url_join / url_basename / rstrip / slicing are uninterpreted: R4 compares which term is built, not what string it denotes')
+    ctx.assume('outcomes of the file-system queries are table columns: statfile succeeds or raises FileNotFoundError, recursive listfiles succeeds or raises FileNotFoundError/NotADirectoryError, staturl answers file/dir or raises FileNotFoundError; a recursive listing yields no entry whose url ends with /')
     ctx.assume('a blocking read(k>=1) of a regular file returns at least one byte before end of file; write(b) writes all of b')
     ctx.assume('sources are not modified while they are copied')
     m = pf.load(F)
@@ -1164,7 +1206,14 @@ def run(ctx: Ctx) -> None:
     guarded(chain)
     guarded(lambda: _analyse_readexactly(ctx))
     guarded(lambda: _local_fs(ctx))
-    guarded(lambda: _dest_table(ctx))
+    def table() -> None:
+        before = len(ctx.findings)
+        _barrier(ctx)
+        if len(ctx.findings) > before:
+            ctx.info('R4: the outcome table is not computed because the barrier discipline that licenses composing copy_as_file / copy_as_dir in two phases is violated')
+            return
+        _dest_table(ctx)
+    guarded(table)
     guarded(lambda: _make_transfer(ctx))
     guarded(lambda: _local_classifiers(ctx))
     guarded(lambda: _handlers(ctx, m))
